@@ -8,4 +8,9 @@ def triplesCTrees : List Shape := (Shape.bins levelOps (sh2 unOps levelOps) sh0)
 set_option maxRecDepth 100000 in
 theorem triplesC_exact : (triplesCTrees.all fun s => devsExact s.eqn) = true := by decide +kernel
 
+set_option maxRecDepth 100000 in
+/-- every text form of every tree of this part round-trips -/
+theorem triplesC_all : (triplesCTrees.all fun s => roundTripsEqn s.eqn && roundTripsScript s.eqn && roundTripsFilter s.eqn) = true := by
+  decide +kernel
+
 end OjgVerif.JPText
